@@ -24,7 +24,7 @@ from __future__ import absolute_import
 from gevent import Timeout
 
 from slimta.smtp.client import LmtpClient
-from .client import SmtpRelayClient
+from .client import SmtpRelayClient, _refused
 from . import SmtpRelayError
 
 __all__ = ['LmtpRelayClient']
@@ -58,7 +58,7 @@ class LmtpRelayClient(SmtpRelayClient):
             return
         had_errors = False
         for rcpt, reply in data_results:  # type: ignore
-            if reply.is_error():
+            if _refused(reply):
                 rcpt_results[rcpt] = SmtpRelayError.factory(reply)
                 had_errors = True
             else:
